@@ -13,6 +13,7 @@ import (
 	"github.com/emmansun/gmsm/sm2"
 
 	"verif/ref/ecref"
+	"verif/ref/sm4ref"
 )
 
 func hx(s string) *big.Int {
@@ -76,9 +77,9 @@ func cached(f func(v *big.Int) ([]byte, bool)) func(v *big.Int) ([]byte, bool) {
 	}
 }
 
-func noRest(f func(v *big.Int) ([]byte, bool)) func(v *big.Int, rest []byte) ([]byte, int, bool) {
+func noRest(f func(v *big.Int) ([]byte, bool)) func(v *big.Int, pre, rest []byte) ([]byte, int, bool) {
 	cf := cached(f)
-	return func(v *big.Int, rest []byte) ([]byte, int, bool) {
+	return func(v *big.Int, pre, rest []byte) ([]byte, int, bool) {
 		e, ok := cf(v)
 		return e, 0, ok
 	}
@@ -200,7 +201,40 @@ func sm2Ops() []*opDef {
 		}
 	}
 
-	return []*opDef{
+	rsRun := func(sign func(rd io.Reader) (*big.Int, *big.Int, error)) func(rd io.Reader) obs {
+		return func(rd io.Reader) obs {
+			r, s, err := sign(rd)
+			if err != nil {
+				if r != nil || s != nil {
+					return obs{err: err, leak: fmt.Sprintf("r=%v s=%v", r, s)}
+				}
+				return obs{err: err}
+			}
+			if !fits32(r, s) {
+				return obs{bad: fmt.Sprintf("r=%v s=%v", r, s)}
+			}
+			return obs{out: cat32(r, s)}
+		}
+	}
+	envKey := patBlock(0x77, 23, 1)[:16] // the 16 bytes MarshalEnvelopedPrivateKey reads as SM4 key before it encrypts
+	envCores := map[string]func(v *big.Int) ([]byte, bool){}
+	envCore := func(v *big.Int, key []byte) ([]byte, bool) {
+		f, ok := envCores[string(key)]
+		if !ok {
+			k := append([]byte{}, key...)
+			f = cached(func(v *big.Int) ([]byte, bool) {
+				c1, c2, c3, ok := c.EncryptWithK(pubB, v, k)
+				if !ok || c1.Inf {
+					return nil, false
+				}
+				return concat(c1.Uncompressed(), c3, c2), true
+			})
+			envCores[string(key)] = f
+		}
+		return f(v)
+	}
+
+	ops := []*opDef{
 		{
 			name: "sm2.keygen", noun: "key", g: grpSM2, hiOff: 2,
 			run: func(rd io.Reader) obs {
@@ -364,5 +398,67 @@ func sm2Ops() []*opDef {
 			}, false),
 			expect: noRest(encExpect(nist, nistPubA)),
 		},
+		// API variants of the signature operation
+		{
+			name: "sm2.sign.rs", noun: "nonce", g: grpSM2, hiOff: 1, light: true,
+			run: rsRun(func(rd io.Reader) (*big.Int, *big.Int, error) {
+				return sm2.Sign(rd, &sm2Priv(sm2dA).PrivateKey, sigHash)
+			}),
+			expect:        noRest(signExpect(c, sm2dA, sigHash)),
+			recoverScalar: signRecover(c, sm2dA),
+		},
+		{
+			name: "sm2.signwithsm2.rs", noun: "nonce", g: grpSM2, hiOff: 1, light: true,
+			run: rsRun(func(rd io.Reader) (*big.Int, *big.Int, error) {
+				return sm2.SignWithSM2(rd, &sm2Priv(sm2dA).PrivateKey, nil, sigMsg)
+			}),
+			expect:        noRest(signExpect(c, sm2dA, eGM)),
+			recoverScalar: signRecover(c, sm2dA),
+		},
+		{
+			name: "sm2.signwithsm2.method", noun: "nonce", g: grpSM2, hiOff: 1, light: true,
+			run: signRun(func(rd io.Reader) ([]byte, error) {
+				return sm2Priv(sm2dA).SignWithSM2(rd, nil, sigMsg)
+			}),
+			expect:        noRest(signExpect(c, sm2dA, eGM)),
+			recoverScalar: signRecover(c, sm2dA),
+		},
+		{
+			// key wrapping: 16 random bytes become the SM4 key, then that key is SM2-encrypted with a sampled scalar
+			name: "sm2.envelope", noun: "scalar", g: grpSM2, hiOff: 1, light: true, pre: envKey, preReads: []int{16},
+			run: func(rd io.Reader) obs {
+				der, err := sm2.MarshalEnvelopedPrivateKey(rd, ecPub(sm2.P256(), pubB), sm2Priv(sm2dA))
+				if err != nil {
+					if len(der) != 0 {
+						return obs{err: err, leak: fmt.Sprintf("enveloped key %x", der)}
+					}
+					return obs{err: err}
+				}
+				var env struct {
+					Alg    asn1.RawValue
+					Cipher sm2CipherASN1
+					Pub    asn1.BitString
+					Enc    asn1.BitString
+				}
+				rest, e := asn1.Unmarshal(der, &env)
+				if e != nil || len(rest) != 0 || !fits32(env.Cipher.X, env.Cipher.Y) || env.Enc.BitLength != 32*8 {
+					return obs{bad: fmt.Sprintf("SM2EnvelopedKey does not parse: %v %x", e, der)}
+				}
+				return obs{out: concat([]byte{4}, cat32(env.Cipher.X, env.Cipher.Y), env.Cipher.C3, env.Cipher.C2, env.Enc.Bytes)}
+			},
+			expect: func(v *big.Int, pre, rest []byte) ([]byte, int, bool) {
+				ct, ok := envCore(v, pre)
+				if !ok {
+					return nil, 0, false
+				}
+				blk := sm4ref.New(pre)
+				enc := make([]byte, 32)
+				d := ecref.Bytes32(sm2dA)
+				blk.Encrypt(enc[:16], d[:16])
+				blk.Encrypt(enc[16:], d[16:])
+				return concat(ct, enc), 0, true
+			},
+		},
 	}
+	return ops
 }
